@@ -849,6 +849,13 @@ def potential_facts(pot_src, helpers_src):
         "    self.derivativeSettings.fieldValueVariationScale = "
         "np.asanyarray(settings.fieldValueVariationScale)"]
     got_cd = [ast.unparse(ast.fix_missing_locations(s)) for s in cd[:-1]]
+    # optional, value-preserving: the temperature scale is coerced to a python float
+    # (helpers.derivative asserts isinstance(scale, float)); it stays the T scale
+    tfloat = ("self.derivativeSettings.temperatureVariationScale = "
+              "float(settings.temperatureVariationScale)")
+    facts["derivT_scale_coerced_to_float"] = "true" if tfloat in got_cd[1:2] else "false"
+    if got_cd[1:2] == [tfloat]:
+        got_cd = got_cd[:1] + got_cd[2:]
     if got_cd != want_cd:
         raise TranslateError("configureDerivatives normalises the scales by %r, model "
                              "expects %r" % (got_cd, want_cd))
@@ -976,7 +983,7 @@ def potential_facts(pot_src, helpers_src):
         raise TranslateError("allSecondDerivatives slices %r" % sorted(got))
     facts["allSecond_hess"], facts["allSecond_dgraddT"], facts["allSecond_d2VdT2"] = \
         got["hess"], got["dgraddT"], got["d2VdT2"]
-    types = dict(scales_layout="list scale_kind", derivT_scale="scale_kind", derivT_n="nat",
+    types = dict(derivT_scale_coerced_to_float="bool", scales_layout="list scale_kind", derivT_scale="scale_kind", derivT_n="nat",
                  derivT_lb="bound", derivT_ub="bound")
     out = ["(* generated from src/WallGo/effectivePotential.py -- do not edit *)",
            "From Coq Require Import List ZArith QArith.",
